@@ -138,6 +138,15 @@ def cache_part(ck, tier, rng, sources):
             if e >= 2 and lines[e - 1].startswith("\t"):
                 mod = lines[:e - 1] + ['\tDie Zahl kaputt ist "keine Zahl".'] + lines[e - 1:]
                 inputs.append(("G%d:fail-in-function-%d" % (bi, n), {"main.ddp": "\n".join(mod).encode()}, "main.ddp"))
+                # ... and with a declaration that is well typed for SOME bindings of the type parameter only (the first parameter used as a
+                # Text / as a Zahl): one instantiation of the function fails while another one - possibly created inside it - succeeds
+                hdr = next((lines[i] for i in range(e - 1, max(0, e - 40), -1) if lines[i].startswith("Die generische Funktion")), "")
+                import re as _re
+                m = _re.search(r"mit de[mn] Parametern? (\w+).* vom Typ (\w+)( Liste)?", hdr)
+                if m and m.group(2) in ("T", "A", "B", "R") and not m.group(3):
+                    for tn, art in (("Text", "Der"), ("Zahl", "Die")):
+                        mod = lines[:e - 1] + ["\t%s %s nur_%s ist %s." % (art, tn, tn.lower(), m.group(1))] + lines[e - 1:]
+                        inputs.append(("G%d:fail-in-function-%d-unless-%s" % (bi, n, tn), {"main.ddp": "\n".join(mod).encode()}, "main.ddp"))
     seeds = [x for x in inputs if ":fail-in-function-" not in x[0]]
     toks = feinputs.tokenize([f[m] for _, f, m in seeds])
     nmut = 40 if tier == "quick" else 400
